@@ -96,12 +96,19 @@ def _gen_cli(rng, cfg, files, wsdocs, nout):
         if rng.random() < 0.4:
             opt = op["optimizer"] or "scipy"
             if opt == "scipy":
-                oc = rng.choice([{"maxiter": rng.choice([1, 2, 5000])}, {"tolerance": rng.choice([1e-2, 1e-9])}, {"maxiter": 3000, "tolerance": 1e-6},
+                oc = rng.choice([{"maxiter": rng.choice([1, 2, 5000])}, {"maxiter": 5000}, {"tolerance": rng.choice([1e-2, 1e-9])}, {"maxiter": 3000, "tolerance": 1e-6},
                                  {"verbose": 0}, {"no_such_option": 3}])
             else:
                 oc = rng.choice([{"strategy": rng.choice([0, 1, 2])}, {"tolerance": rng.choice([0.01, 1.0])}, {"errordef": 0.5}, {"maxiter": rng.choice([2, 5000])},
                                  {"steps": 500}])
         op["optconf"] = oc
+        # repeated --optconf with the same key: the later one wins (options are merged in order)
+        if oc and rng.random() < 0.45:
+            k0 = next(iter(oc))
+            # a value whose effect differs visibly from the one that must win
+            alt = {"maxiter": 1 if oc[k0] > 10 else 4000, "tolerance": 1e-2 if oc[k0] < 1e-3 else 1e-8, "strategy": 2 - oc.get("strategy", 0) if k0 == "strategy" else 0,
+                   "errordef": 1.0, "steps": 800, "verbose": 0, "no_such_option": 1}.get(k0, 1)
+            op["optconf_first"] = [[k0, alt]]     # given on the command line BEFORE the entries of optconf
         if cmd == "cls":
             op["test_poi"] = rng.choice([None, 1.0, 0.5, 2.0, 0.0, round(rng.uniform(0.1, 3), 3)])
             op["test_stat"] = rng.choice([None, "q", "qtilde"])
@@ -218,7 +225,7 @@ def gen(rng: random.Random, k: int, tier: str) -> dict:
 
 def simplify(op):
     if op["op"] == "cli":
-        for k, dflt in (("backend", None), ("optimizer", None), ("optconf", {}), ("patches", []), ("measurement", None), ("both_outputs", False), ("both_inputs", False),
+        for k, dflt in (("backend", None), ("optimizer", None), ("optconf_first", []), ("optconf", {}), ("patches", []), ("measurement", None), ("both_outputs", False), ("both_inputs", False),
                         ("test_stat", None), ("calctype", None), ("fault", None)):
             if k in op and op[k] not in (dflt, None, [], {}) and not (k == "measurement" and isinstance(op[k], list)):
                 yield dict(op, **{k: dflt})
@@ -364,6 +371,8 @@ class World:
                 a += ["--backend", op["backend"]]
             if op.get("optimizer"):
                 a += ["--optimizer", op["optimizer"]]
+            for k, v in (op.get("optconf_first") or []):
+                a += ["--optconf", f"{k}={v}"]
             for k, v in (op.get("optconf") or {}).items():
                 a += ["--optconf", f"{k}={v}"]
             if cmd == "cls":
